@@ -1,4 +1,4 @@
-import NomtModel.Store.SeekSys
+import NomtModel.Store.SeekMeasure
 /-!
 # Every operation of the simulation surface keeps `SysInv` and reaches no panic site
 (helper lemmas for `Props/C05_Seek.lean`)
@@ -74,7 +74,8 @@ theorem live_page_good {W : World Node VH V} (hOK : W.OK) (ps : PageSet Node) (k
 /-- one iteration of the query loop -/
 theorem step_ok (W : World Node VH V) (hOK : W.OK) (s : Sys Node VH V) (hs : SysInv W s) (i : Nat) :
     (∃ s' out, step W.env s i = .ok (s', out) ∧ SysInv W s' ∧
-        (∀ r, s.reqs[i]? = some (r, none) → r.isCompleted = false → out ≠ .noQuery ∧ out ≠ .busy)) ∨
+        (∀ r, s.reqs[i]? = some (r, none) → r.isCompleted = false → out ≠ .noQuery ∧ out ≠ .busy) ∧
+        (out ≠ .noQuery → out ≠ .busy → sysMeasure W.env.leaves.length s' < sysMeasure W.env.leaves.length s)) ∨
       (step W.env s i = .err () ∧ s.reqs[i]? = none) := by
   unfold step
   cases hi : s.reqs[i]? with
@@ -82,7 +83,7 @@ theorem step_ok (W : World Node VH V) (hOK : W.OK) (s : Sys Node VH V) (hs : Sys
   | some x =>
     obtain ⟨r, aw⟩ := x
     cases aw with
-    | some q => exact .inl ⟨s, .busy, rfl, hs, fun r' h => by cases h⟩
+    | some q => exact .inl ⟨s, .busy, rfl, hs, fun r' h => (by cases h), fun _ h => absurd rfl h⟩
     | none =>
       left
       have hprog : ∀ (out : StepOut), out ≠ .noQuery ∧ out ≠ .busy →
@@ -96,7 +97,7 @@ theorem step_ok (W : World Node VH V) (hOK : W.OK) (s : Sys Node VH V) (hs : Sys
       | completed t =>
         have : nextQuery r = .ok (r, none) := by unfold nextQuery; rw [hrs]
         rw [this]
-        refine ⟨s, .noQuery, rfl, hs, ?_⟩
+        refine ⟨s, .noQuery, rfl, hs, ?_, fun h _ => absurd rfl h⟩
         intro r' h hc
         cases h
         unfold Req.isCompleted at hc
@@ -112,10 +113,11 @@ theorem step_ok (W : World Node VH V) (hOK : W.OK) (s : Sys Node VH V) (hs : Sys
         | some x =>
           obtain ⟨pg, o⟩ := x
           simp only
-          obtain ⟨ps', r', e1, e2, e3, e4, e5, e6⟩ :=
+          obtain ⟨ps', r', e1, e2, e3, e4, e5, e6, e7⟩ :=
             continueSeek_ok W hOK s.ps hs.ps r ht hrs h6 h2 pg (hs.ps _ pg o hget)
           rw [e1]
-          exact ⟨_, _, rfl, sysinv_set hs e4 e5 hs.mem i e6, hprog _ (by simp)⟩
+          exact ⟨_, _, rfl, sysinv_set hs e4 e5 hs.mem i e6, hprog _ (by simp),
+            fun _ _ => sysMeasure_set _ hi (measure_deeper hrs e6 e7) _ _⟩
         | none =>
           simp only
           have hg : W.G (sextetsOf (r.key.take r.pos.depth)) := by
@@ -131,10 +133,11 @@ theorem step_ok (W : World Node VH V) (hOK : W.OK) (s : Sys Node VH V) (hs : Sys
             subst this
             have hps1 := psinv_insert hs.ps hgoodU Origin.persisted
             have he1 := ext_insert s.ps (sextetsOf (r.key.take r.pos.depth)) pg Origin.persisted
-            obtain ⟨ps', r', e1, e2, e3, e4, e5, e6⟩ :=
+            obtain ⟨ps', r', e1, e2, e3, e4, e5, e6, e7⟩ :=
               continueSeek_ok W hOK _ hps1 r ht hrs h6 h2 pg (pgood_mono he1 hgoodU)
             rw [e1]
-            exact ⟨_, _, rfl, sysinv_set hs e4 (ext_trans he1 e5) hs.mem i e6, hprog _ (by simp)⟩
+            exact ⟨_, _, rfl, sysinv_set hs e4 (ext_trans he1 e5) hs.mem i e6, hprog _ (by simp),
+              fun _ _ => sysMeasure_set _ hi (measure_deeper hrs e6 e7) _ _⟩
           | none =>
             simp only
             cases hca : s.cache.lookup (sextetsOf (r.key.take r.pos.depth)) with
@@ -144,13 +147,19 @@ theorem step_ok (W : World Node VH V) (hOK : W.OK) (s : Sys Node VH V) (hs : Sys
               subst this
               have hps1 := psinv_insert hs.ps hgoodU Origin.persisted
               have he1 := ext_insert s.ps (sextetsOf (r.key.take r.pos.depth)) pg Origin.persisted
-              obtain ⟨ps', r', e1, e2, e3, e4, e5, e6⟩ :=
+              obtain ⟨ps', r', e1, e2, e3, e4, e5, e6, e7⟩ :=
                 continueSeek_ok W hOK _ hps1 r ht hrs h6 h2 pg (pgood_mono he1 hgoodU)
               rw [e1]
-              exact ⟨_, _, rfl, sysinv_set hs e4 (ext_trans he1 e5) hs.mem i e6, hprog _ (by simp)⟩
+              exact ⟨_, _, rfl, sysinv_set hs e4 (ext_trans he1 e5) hs.mem i e6, hprog _ (by simp),
+              fun _ _ => sysMeasure_set _ hi (measure_deeper hrs e6 e7) _ _⟩
             | none =>
               simp only
-              refine ⟨_, _, rfl, ?_, hprog _ (by simp)⟩
+              refine ⟨_, _, rfl, ?_, hprog _ (by simp), fun _ _ => ?_⟩
+              rotate_left
+              · unfold setReq
+                apply sysMeasure_set _ hi
+                rw [reqMeasure_seeking _ (by exact hrs), reqMeasure_seeking _ hrs]
+                simp [waitRank]
               unfold setReq
               refine sysinv_set hs hs.ps (ext_refl _) hs.mem i ⟨trail_congr ht rfl rfl rfl, hpid, ?_⟩
               unfold StOK
@@ -171,7 +180,12 @@ theorem step_ok (W : World Node VH V) (hOK : W.OK) (s : Sys Node VH V) (hs : Sys
           unfold nextQuery; rw [hrs]
         rw [this]
         simp only
-        refine ⟨_, _, rfl, ?_, hprog _ (by simp)⟩
+        refine ⟨_, _, rfl, ?_, hprog _ (by simp), fun _ _ => ?_⟩
+        rotate_left
+        · unfold setReq
+          apply sysMeasure_set _ hi
+          rw [reqMeasure_fetch _ (n := it.leaf.pending.length) (by rfl), reqMeasure_fetch _ (n := it.leaf.pending.length) (by rw [hrs]; rfl)]
+          simp [waitRank]
         unfold setReq
         refine sysinv_set hs hs.ps (ext_refl _) hs.mem i ⟨trail_congr ht rfl rfl rfl, hpid, ?_⟩
         unfold StOK
@@ -196,7 +210,12 @@ theorem step_ok (W : World Node VH V) (hOK : W.OK) (s : Sys Node VH V) (hs : Sys
           unfold nextQuery; rw [hrs]
         rw [this]
         simp only
-        refine ⟨_, _, rfl, ?_, hprog _ (by simp)⟩
+        refine ⟨_, _, rfl, ?_, hprog _ (by simp), fun _ _ => ?_⟩
+        rotate_left
+        · unfold setReq
+          apply sysMeasure_set _ hi
+          rw [reqMeasure_fetch _ (n := it.leaf.pending.length) (by rfl), reqMeasure_fetch _ (n := it.leaf.pending.length) (by rw [hrs]; rfl)]
+          simp [waitRank]
         unfold setReq
         refine sysinv_set hs hs.ps (ext_refl _) hs.mem i ⟨trail_congr ht rfl rfl rfl, hpid, ?_⟩
         unfold StOK
@@ -216,7 +235,8 @@ theorem getElem?_set_self {α : Type} {l : List α} {i : Nat} {a b : α} (h : l[
 
 /-- the page a request waits for arrives -/
 theorem supplyPage_ok (W : World Node VH V) (hOK : W.OK) (s : Sys Node VH V) (hs : SysInv W s) (i : Nat) :
-    (∃ s', supplyPage W.env s i = .ok s' ∧ SysInv W s') ∨
+    (∃ s', supplyPage W.env s i = .ok s' ∧ SysInv W s' ∧
+        sysMeasure W.env.leaves.length s' < sysMeasure W.env.leaves.length s) ∨
       (supplyPage W.env s i = .err () ∧ ∀ r p, s.reqs[i]? ≠ some (r, some (.page p))) := by
   unfold supplyPage
   cases hi : s.reqs[i]? with
@@ -254,7 +274,7 @@ theorem supplyPage_ok (W : World Node VH V) (hOK : W.OK) (s : Sys Node VH V) (hs
         obtain ⟨_, m2, _⟩ := mem_lookup hs.mem (sextetsOf (r.key.take r.pos.depth))
         have hps1 := psinv_insert hs.ps hgoodU Origin.persisted
         have he1 := ext_insert s.ps (sextetsOf (r.key.take r.pos.depth)) pgU Origin.persisted
-        obtain ⟨ps', r', e1, e2, e3, e4, e5, e6⟩ :=
+        obtain ⟨ps', r', e1, e2, e3, e4, e5, e6, e7⟩ :=
           continueSeek_ok W hOK _ hps1 r ht hst h6 h2 pgU (pgood_mono he1 hgoodU)
         cases hca : (setReq s i (r, none)).cache.lookup (sextetsOf (r.key.take r.pos.depth)) with
         | some pg =>
@@ -264,13 +284,17 @@ theorem supplyPage_ok (W : World Node VH V) (hOK : W.OK) (s : Sys Node VH V) (hs
           have e1' : continueSeek W.env ((setReq s i (r, none)).ps.insert (sextetsOf (r.key.take r.pos.depth)) pg .persisted) r
               (sextetsOf (r.key.take r.pos.depth)) pg = .ok (ps', r') := e1
           rw [e1']
-          exact ⟨_, rfl, sysinv_set hs1 e4 (ext_trans he1 e5) hs.mem i e6⟩
+          refine ⟨_, rfl, sysinv_set hs1 e4 (ext_trans he1 e5) hs.mem i e6, ?_⟩
+          simp only [setReq, List.set_set]
+          exact sysMeasure_set _ hi (measure_deeper hst e6 e7) _ _
         | none =>
           simp only [hnc, Bool.false_eq_true, if_false]
           have e1' : continueSeek W.env ((setReq s i (r, none)).ps.insert (sextetsOf (r.key.take r.pos.depth)) pgU .persisted) r
               (sextetsOf (r.key.take r.pos.depth)) pgU = .ok (ps', r') := e1
           rw [e1']
-          exact ⟨_, rfl, sysinv_set hs1 e4 (ext_trans he1 e5) (memOK_insert hs.mem hov hca hU) i e6⟩
+          refine ⟨_, rfl, sysinv_set hs1 e4 (ext_trans he1 e5) (memOK_insert hs.mem hov hca hU) i e6, ?_⟩
+          simp only [setReq, List.set_set]
+          exact sysMeasure_set _ hi (measure_deeper hst e6 e7) _ _
 
 /-- what a request that waits for a leaf looks like -/
 theorem awaiting_leaf {W : World Node VH V} {ps : PageSet Node} {r : Req Node VH V} {l : Nat}
@@ -294,7 +318,8 @@ theorem awaiting_leaf {W : World Node VH V} {ps : PageSet Node} {r : Req Node VH
 
 /-- the leaf a request waits for arrives -/
 theorem supplyLeaf_ok (W : World Node VH V) (hOK : W.OK) (s : Sys Node VH V) (hs : SysInv W s) (i : Nat) :
-    (∃ s', supplyLeaf W.env s i = .ok s' ∧ SysInv W s') ∨
+    (∃ s', supplyLeaf W.env s i = .ok s' ∧ SysInv W s' ∧
+        sysMeasure W.env.leaves.length s' < sysMeasure W.env.leaves.length s) ∨
       (supplyLeaf W.env s i = .err () ∧ ∀ r l, s.reqs[i]? ≠ some (r, some (.leaf l))) := by
   unfold supplyLeaf
   cases hi : s.reqs[i]? with
@@ -314,7 +339,7 @@ theorem supplyLeaf_ok (W : World Node VH V) (hOK : W.OK) (s : Sys Node VH V) (hs
         unfold forceLeaf
         rw [hget]
         rcases awaiting_leaf hr with ⟨dels, it, needed, hst⟩ | ⟨page, range, it, needed, coll, hst⟩
-        · obtain ⟨leaf, hleaf, r', e1, e2, e3, e4, e5, e6, e7⟩ := leafFetch_supply_ok W s.ps r hr.1 hst hr.2.2
+        · obtain ⟨leaf, hleaf, r', e1, e2, e3, e4, e5, e6, e7, e8⟩ := leafFetch_supply_ok W s.ps r hr.1 hst hr.2.2
           rw [hleaf]
           have hnc : r.isCompleted = false := by unfold Req.isCompleted; rw [hst]
           simp only [hnc, Bool.false_eq_true, if_false, hst, e1]
@@ -326,8 +351,14 @@ theorem supplyLeaf_ok (W : World Node VH V) (hOK : W.OK) (s : Sys Node VH V) (hs
             exact hr.2.1
           have := sysinv_set hs hs.ps (ext_refl _) hs.mem i hreq'
           simp only [setReq, List.set_set]
-          exact this
-        · obtain ⟨leaf, hleaf, ps', r', e1, e2, e3, e4, e5, e6, e7, e8, e9⟩ :=
+          refine ⟨this, sysMeasure_set _ hi ?_ _ _⟩
+          simp only
+          rcases e8 with h | ⟨n, h1, h2⟩
+          · rw [reqMeasure_completed _ h, reqMeasure_fetch _ (n := it.leaf.pending.length) (by rw [hst]; rfl)]
+            omega
+          · rw [reqMeasure_fetch _ h1, reqMeasure_fetch _ h2, e3]
+            simp [waitRank]; omega
+        · obtain ⟨leaf, hleaf, ps', r', e1, e2, e3, e4, e5, e6, e7, e8, e9, e10⟩ :=
             leavesFetch_supply_ok W hOK s.ps hs.ps r hr.1 hr.2.1 hst hr.2.2
           rw [hleaf]
           have hnc : r.isCompleted = false := by unfold Req.isCompleted; rw [hst]
@@ -341,7 +372,13 @@ theorem supplyLeaf_ok (W : World Node VH V) (hOK : W.OK) (s : Sys Node VH V) (hs
             exact hr.2.1
           have := sysinv_set hs e7 e8 hs.mem i hreq'
           simp only [setReq, List.set_set]
-          exact this
+          refine ⟨this, sysMeasure_set _ hi ?_ _ _⟩
+          simp only
+          rcases e10 with h | ⟨n, h1, h2⟩
+          · rw [reqMeasure_seeking _ h, reqMeasure_fetch _ (n := it.leaf.pending.length) (by rw [hst]; rfl), e3]
+            simp [waitRank]; omega
+          · rw [reqMeasure_fetch _ h1, reqMeasure_fetch _ h2, e3]
+            simp [waitRank]; omega
 
 /-! ### runs: any sequence of operations, in any order, for any number of interleaved keys -/
 
@@ -392,15 +429,15 @@ theorem exec_ok (W : World Node VH V) (hOK : W.OK) (s : Sys Node VH V) (hs : Sys
     obtain ⟨s', e1, e2, _⟩ := push_ok W hOK s hs key (ha key rfl)
     exact ⟨s', e1, e2⟩
   | step i =>
-    rcases step_ok W hOK s hs i with ⟨s', out, e1, e2, _⟩ | ⟨e1, _⟩
+    rcases step_ok W hOK s hs i with ⟨s', out, e1, e2, _, _⟩ | ⟨e1, _⟩
     · exact ⟨s', by simp only [exec, e1], e2⟩
     · exact ⟨s, by simp only [exec, e1], hs⟩
   | supplyPage i =>
-    rcases supplyPage_ok W hOK s hs i with ⟨s', e1, e2⟩ | ⟨e1, _⟩
+    rcases supplyPage_ok W hOK s hs i with ⟨s', e1, e2, _⟩ | ⟨e1, _⟩
     · exact ⟨s', by simp only [exec, e1], e2⟩
     · exact ⟨s, by simp only [exec, e1], hs⟩
   | supplyLeaf i =>
-    rcases supplyLeaf_ok W hOK s hs i with ⟨s', e1, e2⟩ | ⟨e1, _⟩
+    rcases supplyLeaf_ok W hOK s hs i with ⟨s', e1, e2, _⟩ | ⟨e1, _⟩
     · exact ⟨s', by simp only [exec, e1], e2⟩
     · exact ⟨s, by simp only [exec, e1], hs⟩
 
